@@ -14,6 +14,14 @@ pub fn verif_parse_f64<F>(s: String) -> (r: std::result::Result<f64, IntErr>)
 pub axiom fn axiom_strict_is_lossy_f64(b: Seq<u8>)
     ensures (match spec_utf8(b) { Some(s) => spec_str_f64(s), None => None }) == parse_lossy_spec::<f64>(b);
 
+/// `s.parse::<usize>()` on an owned String (RCALL site) and its relation to the direct path's lossy parse (TRUSTED, as in c12_parse)
+pub uninterp spec fn spec_str_usize(s: Seq<char>) -> Option<usize>;
+#[verifier::external_body]
+pub fn verif_parse_usize<F>(s: String) -> (r: std::result::Result<usize, IntErr>)
+    ensures match spec_str_usize(s@) { Some(n) => r matches Ok(v) && v == n, None => r is Err },
+{ unimplemented!() }
+pub axiom fn axiom_strict_is_lossy_usize(b: Seq<u8>)
+    ensures (match spec_utf8(b) { Some(s) => spec_str_usize(s), None => None }) == parse_lossy_spec::<usize>(b);
 /// the pairs a well-formed ZADD names, in order
 pub open spec fn zadd_pairs(parts: Seq<RespFrame>) -> Seq<(f64, Seq<u8>)> {
     Seq::new(((parts.len() - 2) / 2) as nat, |j: int| (score_arg(parts, 2 + 2 * j)->Some_0, arg(parts, 2 + 2 * j + 1)->Some_0))
@@ -114,6 +122,34 @@ impl CommandParser {
 //@@ body
 //@@ end
 
+//@@ unit parse_zpopmin fn src/storage/commands/executor.rs CommandParser::parse_zpopmin
+//@@   rewrite R1
+//@@   rewrite RCALL parse "*" verif_parse_usize
+//@@   at "let count"
+//@@|     proof { if frames@.len() == 3 && arg(frames@, 2) is Some { axiom_strict_is_lossy_usize(arg(frames@, 2)->Some_0); } }
+    fn parse_zpopmin(frames: &[RespFrame]) -> (r: Result<SortedSetCommand>)
+        ensures
+            // C12: refused for exactly the shapes the direct command (handle_zpopmin / handle_zpopmax) refuses; the count is the number the argument spells
+            (frames@.len() < 2 || frames@.len() > 3 || arg(frames@, 1) is None || (frames@.len() == 3 && num_arg::<usize>(frames@, 2) is None)) ==> r is Err,
+            frames@.len() == 2 && arg(frames@, 1) is Some ==> (r matches Ok(SortedSetCommand::ZPopMin { key, count }) && key@ == arg(frames@, 1)->Some_0 && count is None),
+            frames@.len() == 3 && arg(frames@, 1) is Some && num_arg::<usize>(frames@, 2) is Some ==>
+                (r matches Ok(SortedSetCommand::ZPopMin { key, count }) && key@ == arg(frames@, 1)->Some_0 && count == Some(num_arg::<usize>(frames@, 2)->Some_0)),
+//@@ body
+//@@ end
+//@@ unit parse_zpopmax fn src/storage/commands/executor.rs CommandParser::parse_zpopmax
+//@@   rewrite R1
+//@@   rewrite RCALL parse "*" verif_parse_usize
+//@@   at "let count"
+//@@|     proof { if frames@.len() == 3 && arg(frames@, 2) is Some { axiom_strict_is_lossy_usize(arg(frames@, 2)->Some_0); } }
+    fn parse_zpopmax(frames: &[RespFrame]) -> (r: Result<SortedSetCommand>)
+        ensures
+            // C12: refused for exactly the shapes the direct command (handle_zpopmin / handle_zpopmax) refuses; the count is the number the argument spells
+            (frames@.len() < 2 || frames@.len() > 3 || arg(frames@, 1) is None || (frames@.len() == 3 && num_arg::<usize>(frames@, 2) is None)) ==> r is Err,
+            frames@.len() == 2 && arg(frames@, 1) is Some ==> (r matches Ok(SortedSetCommand::ZPopMax { key, count }) && key@ == arg(frames@, 1)->Some_0 && count is None),
+            frames@.len() == 3 && arg(frames@, 1) is Some && num_arg::<usize>(frames@, 2) is Some ==>
+                (r matches Ok(SortedSetCommand::ZPopMax { key, count }) && key@ == arg(frames@, 1)->Some_0 && count == Some(num_arg::<usize>(frames@, 2)->Some_0)),
+//@@ body
+//@@ end
 //@@ unit parse_zrem fn src/storage/commands/executor.rs CommandParser::parse_zrem
 //@@   rewrite RT "let mut members = Vec::new();" "let mut members: Vec<Vec<u8>> = Vec::new();"
 //@@   loop 0
